@@ -1,0 +1,8 @@
+//go:build !verif
+
+package cdcn
+
+// verifSpawn and verifEnd are no-ops unless the module is built with the
+// "verif" tag (see verif_on.go).
+func verifSpawn() {}
+func verifEnd()   {}
